@@ -13,6 +13,7 @@
 -/
 import KadDHT.Proofs.FullRT
 import KadDHT.Proofs.Crawler
+import KadDHT.Model.SwapLock
 namespace KadDHT.C16
 open KadDHT.FullRT KadDHT.Crawler
 
@@ -163,5 +164,126 @@ example : closest 3 1 [(0, [1]), (1, [1, 2]), (2, [2]), (3, [3]), (4, [4])] = [0
 example : closest 2 2 [(0, [1, 1]), (1, [1]), (2, [1])] = [0, 1] := by decide
 example : (crawlSeq (fun p => if p = 1 then some [2, 3] else if p = 2 then some [1] else none) 10
     (seed (fun _ => true) [1, 1])).outcomes = [(1, true), (2, true), (3, false)] := by decide
+
+/-! ### one single completed crawl: the swap of a finished crawl against concurrent queries -/
+
+open KadDHT.SwapLock in
+/-- what holds in every reachable state of the repaired protocol -/
+structure SwapInv (s : SwapLock.S) : Prop where
+  /-- a reader that holds any lock excludes the writer … -/
+  readerExcl : ∀ t, 1 ≤ s.rpc t → s.wpc = 0
+  /-- … the tables agree whenever the writer is not between its assignments … -/
+  agree : s.wpc ≤ 3 → s.rt = s.km ∧ s.km = s.ad
+  mid4 : s.wpc = 4 → s.ad = s.next
+  mid5 : s.wpc = 5 → s.ad = s.next ∧ s.km = s.next
+  /-- … and so does everything a query ever read -/
+  seenOk : ∀ t v, s.seen t = some v → v.1 = v.2.1 ∧ v.2.1 = v.2.2
+
+open KadDHT.SwapLock in
+theorem swapInv_init : SwapInv {} :=
+  ⟨fun _ h => by simp at h, fun _ => ⟨rfl, rfl⟩, fun h => by simp at h, fun h => by simp at h, fun _ _ h => by simp at h⟩
+
+open KadDHT.SwapLock in
+theorem swapInv_step (s s' : SwapLock.S) (h : SwapInv s) (hs : StepNew s s') : SwapInv s' := by
+  cases hs with
+  | reader _ hr =>
+    cases hr with
+    | acq t hlt hfree =>
+      have hw : s.wpc = 0 := by
+        by_cases h1 : 1 ≤ s.rpc t
+        · exact h.readerExcl t h1
+        · have : ¬ (s.rpc t + 1 ≤ s.wpc) := hfree
+          omega
+      exact ⟨fun _ _ => hw, h.agree, h.mid4, h.mid5, h.seenOk⟩
+    | read t h3 =>
+      have hw : s.wpc = 0 := h.readerExcl t (by omega)
+      refine ⟨?_, h.agree, h.mid4, h.mid5, ?_⟩
+      · intro u hu
+        have hu' : 1 ≤ setR s.rpc t 0 u := hu
+        unfold setR at hu'
+        split at hu'
+        · omega
+        · exact h.readerExcl u hu'
+      · intro u v hv
+        have hv' : setR s.seen t (some (s.rt, s.km, s.ad)) u = some v := hv
+        unfold setR at hv'
+        split at hv'
+        · cases hv'
+          exact h.agree (by omega)
+        · exact h.seenOk u v hv'
+  | wacq hlt hfree =>
+    refine ⟨?_, ?_, ?_, ?_, h.seenOk⟩
+    · intro t ht
+      have ht' : 1 ≤ s.rpc t := ht
+      have := hfree t
+      have h0 : s.wpc = 0 := h.readerExcl t ht'
+      omega
+    · intro _; exact h.agree (by omega)
+    · intro h4; have : s.wpc + 1 = 4 := h4; omega
+    · intro h5; have : s.wpc + 1 = 5 := h5; omega
+  | wAddrs h3 =>
+    refine ⟨?_, ?_, fun _ => rfl, ?_, h.seenOk⟩
+    · intro t ht
+      have ht' : 1 ≤ s.rpc t := ht
+      have := h.readerExcl t ht'
+      omega
+    · intro h4; simp at h4
+    · intro h5; simp at h5
+  | wMap h4 =>
+    refine ⟨?_, ?_, ?_, fun _ => ⟨h.mid4 h4, rfl⟩, h.seenOk⟩
+    · intro t ht
+      have ht' : 1 ≤ s.rpc t := ht
+      have := h.readerExcl t ht'
+      omega
+    · intro h5; simp at h5
+    · intro h5; simp at h5
+  | wRt h5 =>
+    have hm := h.mid5 h5
+    refine ⟨?_, ?_, ?_, ?_, h.seenOk⟩
+    · intro t ht
+      have ht' : 1 ≤ s.rpc t := ht
+      have := h.readerExcl t ht'
+      omega
+    · intro _; exact ⟨hm.2.symm, by rw [hm.2, hm.1]⟩
+    · intro h4; simp at h4
+    · intro h4; simp at h4
+
+open KadDHT.SwapLock in
+theorem swapInv_reach (s : SwapLock.S) (h : Reach StepNew s) : SwapInv s := by
+  induction h with
+  | init => exact swapInv_init
+  | step s s' _ hs ih => exact swapInv_step s s' ih hs
+
+open KadDHT.SwapLock in
+/-- With the finished crawl swapped in under all three locks (taken in the order the queries take them), every
+    closest-peers query — any number of them, in any interleaving with any number of swaps — reads the trie, the
+    key->peer map and the address map of ONE crawl. -/
+theorem swap_atomic (s : SwapLock.S) (h : Reach StepNew s) (t : Nat) (r k a : Nat) (hv : s.seen t = some (r, k, a)) :
+    r = k ∧ k = a :=
+  (swapInv_reach s h).seenOk t (r, k, a) hv
+
+open KadDHT.SwapLock in
+/-- The swap as it was (three separate critical sections) lets a query that already holds rtLk read the trie of the
+    previous crawl with the maps of the new one: the mixture the race harness met on the real client. -/
+theorem swap_legacy_mixes : ∃ s, Reach StepOld s ∧ s.seen 0 = some (0, 1, 1) := by
+  let s0 : SwapLock.S := {}
+  let s1 : SwapLock.S := { s0 with rpc := setR s0.rpc 0 (s0.rpc 0 + 1) }
+  let s2 : SwapLock.S := { s1 with ad := s1.next, wpc := 1 }
+  let s3 : SwapLock.S := { s2 with km := s2.next, wpc := 2 }
+  let s4 : SwapLock.S := { s3 with rpc := setR s3.rpc 0 (s3.rpc 0 + 1) }
+  let s5 : SwapLock.S := { s4 with rpc := setR s4.rpc 0 (s4.rpc 0 + 1) }
+  let s6 : SwapLock.S := { s5 with rpc := setR s5.rpc 0 0, seen := setR s5.seen 0 (some (s5.rt, s5.km, s5.ad)) }
+  have r0 : Reach StepOld s0 := .init
+  have r1 : Reach StepOld s1 := .step _ _ r0 (.reader _ _ (.acq s0 0 (by decide) (fun h => h)))
+  have r2 : Reach StepOld s2 := .step _ _ r1 (.wAddrs s1 rfl (by intro t; show setR s0.rpc 0 (s0.rpc 0 + 1) t < 3; unfold setR; split <;> simp [s0]))
+  have r3 : Reach StepOld s3 := .step _ _ r2 (.wMap s2 rfl (by intro t; show setR s0.rpc 0 (s0.rpc 0 + 1) t < 2; unfold setR; split <;> simp [s0]))
+  have r4 : Reach StepOld s4 := .step _ _ r3 (.reader _ _ (.acq s3 0 (by show setR s0.rpc 0 (s0.rpc 0 + 1) 0 < 3; simp [setR, s0]) (fun h => h)))
+  have r5 : Reach StepOld s5 := .step _ _ r4 (.reader _ _ (.acq s4 0 (by show setR s3.rpc 0 (s3.rpc 0 + 1) 0 < 3; simp [setR, s3, s2, s1, s0]) (fun h => h)))
+  have r6 : Reach StepOld s6 := .step _ _ r5 (.reader _ _ (.read s5 0 (by show setR s4.rpc 0 (s4.rpc 0 + 1) 0 = 3; simp [setR, s4, s3, s2, s1, s0])))
+  exact ⟨s6, r6, by simp [s6, s5, s4, s3, s2, s1, s0, setR]⟩
+
+open KadDHT.SwapLock in
+/-- non-vacuity: a query does complete during the repaired protocol (after a full swap it reads crawl 1 everywhere) -/
+example : ∃ s, Reach StepNew s ∧ s.wpc = 1 := ⟨_, .step _ _ .init (.wacq {} (by decide) (fun _ => Nat.zero_lt_succ _)), rfl⟩
 
 end KadDHT.C16
